@@ -9,6 +9,10 @@ import (
 )
 
 func init() {
+	// styled sources into TTML: Model/ConvTtml.v (suite convstyledttml)
+	for _, src := range []string{"srt", "vtt", "ssa", "stl"} {
+		plainStyledModels[src+"->ttml"] = "convstyledttml"
+	}
 	plainCodecs = append(plainCodecs, plainCodec{4, "ttml", 1e6,
 		func(b []byte) (*astisub.Subtitles, error) { return astisub.ReadFromTTML(bytes.NewReader(b)) },
 		func(s *astisub.Subtitles, w *bytes.Buffer) error { return s.WriteToTTML(w) }})
